@@ -20,6 +20,18 @@ Two readings of "plus redirects from or to a marked template" are computed:
     full      : least set closed under all three rules at once
 
 two_phase <= full always.  A result R is accepted iff two_phase <= R <= full.
+
+Stores with a history.  A page may carry "p": 1 (stored with need_pre_expand=True up front), and an
+analysis may run on a store that an earlier analysis already marked (`before` = titles marked when the
+analysis starts).  Marks are monotone, and the closure is the closure of the CURRENT store:
+
+    lower = two_phase(flagged)  +  before          (every derivation from a flagged template, whatever
+                                                   was marked earlier; nothing is ever unmarked)
+    upper = joint least fixpoint seeded with flagged + before
+
+A *case* is {"mode": "readd" | "grow", "rounds": [graph, ...]}: "readd" = every round stores the same
+titles again (add_page overwrites and resets the mark) and analyses; "grow" = every round ADDS the
+pages of its graph to the store and analyses the union.
 """
 from __future__ import annotations
 
@@ -69,9 +81,11 @@ def spelling_class(name: str, title: str) -> str:
     return "+".join(tags) or "other"
 
 
-def closure(graph: dict) -> dict:
+def closure(graph: dict, before=()) -> dict:
     pages = graph["pages"]
     titles = {p["t"] for p in pages}
+    premarked = {p["t"] for p in pages if p.get("p")}
+    before = (set(before) & titles) | premarked
     flagged = {p["t"] for p in pages if p["f"]}
     # resolved inclusion edges: includer -> set(included titles)
     inc = {}
@@ -111,7 +125,7 @@ def closure(graph: dict) -> dict:
     tgt = {t for s, t in redirect.items() if s in m0 and t in titles}
     two = m0 | src | tgt
 
-    full = set(flagged)
+    full = set(flagged) | before
     changed = True
     while changed:
         changed = False
@@ -137,7 +151,11 @@ def closure(graph: dict) -> dict:
             why[t] = "redirect-source"
         else:
             why[t] = "redirect-target"
-    return {"titles": titles, "flagged": flagged, "inc": inc, "redirect": redirect, "m0": m0,
+    for t in before - two:
+        why[t] = "already-marked-before-analysis"
+    derived = set(two)
+    two = two | before
+    return {"before": before, "premarked": premarked, "derived": derived, "titles": titles, "flagged": flagged, "inc": inc, "redirect": redirect, "m0": m0,
             "depth": depth, "two_phase": two, "full": full, "why": why, "src": src - m0, "tgt": tgt - m0,
             "noncanonical_edges": noncanon, "unresolved_names": unresolved, "spelling": classes}
 
@@ -171,9 +189,66 @@ def multipath(inc: dict, flagged) -> bool:
     return any(len(s) >= 2 for s in inc.values())
 
 
-def canonicalise(graph: dict) -> dict:
+def graph_at(case: dict, k: int) -> dict:
+    """The library that the store holds when round k is analysed."""
+    if case.get("mode") == "grow":
+        return {"pages": [p for r in case["rounds"][:k + 1] for p in r["pages"]]}
+    return case["rounds"][k]
+
+
+def canonicalise_case(case: dict) -> dict:
+    out = {"rounds": []}
+    if case.get("mode") == "grow":
+        out["mode"] = "grow"
+        titles = {p["t"] for r in case["rounds"] for p in r["pages"]}
+        out["rounds"] = [canonicalise(r, titles) for r in case["rounds"]]
+    else:
+        if "mode" in case:
+            out["mode"] = case["mode"]
+        out["rounds"] = [canonicalise(r) for r in case["rounds"]]
+    return out
+
+
+def refine_missed(m: dict, got) -> str | None:
+    """Root of a missed propagation on a store that was partly marked before the analysis: take a missed
+    template of minimal derivation depth; if every marked template it includes one level below was already
+    marked when the analysis started, the propagation did not start from / pass through those."""
+    missed = [t for t in m["m0"] - set(got)]
+    if not missed:
+        return None
+    d = min(m["depth"][t] for t in missed)
+    if d == 0:
+        return None
+    kinds = set()
+    for t in missed:
+        if m["depth"][t] != d:
+            continue
+        preds = {y for y in m["inc"][t] if m["depth"].get(y) == d - 1}
+        if not preds or not preds <= m["before"]:
+            return None
+        kinds.add("flagged" if preds & m["flagged"] else "unflagged")
+    if "flagged" in kinds:
+        return "includer-of-flagged-template-that-was-already-marked"
+    return "includer-of-unflagged-template-that-was-already-marked"
+
+
+def history_triggers(m: dict) -> set:
+    """Which history-dependent derivations the analysed store contains: a template not marked before the
+    analysis whose shortest derivation goes only through templates that were already marked."""
+    kinds = set()
+    for t in m["m0"] - m["before"]:
+        d = m["depth"][t]
+        if d == 0:
+            continue
+        preds = {y for y in m["inc"][t] if m["depth"].get(y) == d - 1}
+        if preds and preds <= m["before"]:
+            kinds.add("flagged" if preds & m["flagged"] else "unflagged")
+    return kinds
+
+
+def canonicalise(graph: dict, titles=None) -> dict:
     """Same library, every used name that resolves rewritten to the canonical bare title."""
-    titles = {p["t"] for p in graph["pages"]}
+    titles = titles if titles is not None else {p["t"] for p in graph["pages"]}
     out = []
     for p in graph["pages"]:
         u = []
@@ -182,5 +257,8 @@ def canonicalise(graph: dict) -> dict:
             w2 = canonical_name(r) if r is not None else w
             if w2 not in u:
                 u.append(w2)
-        out.append({"t": p["t"], "r": p["r"], "u": u, "f": p["f"]})
+        q = {"t": p["t"], "r": p["r"], "u": u, "f": p["f"]}
+        if p.get("p"):
+            q["p"] = 1
+        out.append(q)
     return {"pages": out}
